@@ -217,6 +217,13 @@ func init() {
 				cse.TimeoutMS = 60000
 				cs = append(cs, cse)
 			}
+			// every request is started, the iterations outlive the run's completion timeout: started is not dropped
+			for i := 0; i < map[string]int{"quick": 3, "thorough": 12}[tier]; i++ {
+				cse := core.MkCase("C02", "timeoutdrop", i, seed, map[string]int{"c": 2 + i%3, "mode": i % 2})
+				cse.Race = i%2 == 0
+				cse.TimeoutMS = 60000
+				cs = append(cs, cse)
+			}
 			// runs that end by their max-duration (or a config-file stage by its own) with ticks every few milliseconds
 			for i := 0; i < map[string]int{"quick": 6, "thorough": 48}[tier]; i++ {
 				p := c02RunParams{Conc: pick(r, 1, 2, 16), StopAt: -1, Body: pick(r, "instant", "spin", "sleep"), IvUS: pick(r, 2000, 3000, 5000, 7000)}
@@ -233,7 +240,7 @@ func init() {
 			}
 			return cs
 		},
-		Kinds:  map[string]core.RunFunc{"deadline": c02Deadline, "script": c02Script, "hook": c02Hook, "stress": c02Stress, "counter": c02Counter, "run": c02Run, "limitrace": c02LimitRace, "hammer": c02Hammer, "filecancel": c02FileCancel, "filelimit": c02FileLimit, "extremes": c02Extremes, "dualdrop": c02DualDrop},
+		Kinds:  map[string]core.RunFunc{"timeoutdrop": c02TimeoutDrop, "deadline": c02Deadline, "script": c02Script, "hook": c02Hook, "stress": c02Stress, "counter": c02Counter, "run": c02Run, "limitrace": c02LimitRace, "hammer": c02Hammer, "filecancel": c02FileCancel, "filelimit": c02FileLimit, "extremes": c02Extremes, "dualdrop": c02DualDrop},
 		Floors: map[string]int64{"script_steps": 500, "steps_superseding": 50, "steps_stop_with_pending": 10, "steps_limit_silent": 10, "hook_schedules_formed": 6, "stress_drops": 1000, "porcupine_histories": 400},
 	})
 }
@@ -931,6 +938,58 @@ func c02Counter(c *core.Case, o *core.Outcome) {
 }
 
 // ---------------------------------------------------------------- whole run, stop from inside evaluation m
+
+// c02TimeoutDrop: one tick asks for exactly as many iterations as there are workers; all of them start and are still
+// executing when the run ends and its completion timeout (150 ms) expires. A request that was started is not a dropped one:
+// the result reports no dropped iteration, then and after the bodies have ended.
+func c02TimeoutDrop(c *core.Case, o *core.Outcome) {
+	var pp map[string]int
+	c.Params(&pp)
+	cc := pp["c"]
+	l := engine.NewLog()
+	gate := make(chan struct{})
+	var started, ended atomic.Int64
+	scenario := func(*f1testing.T) f1testing.RunFn {
+		return func(*f1testing.T) {
+			started.Add(1)
+			<-gate
+			ended.Add(1)
+		}
+	}
+	spec := engine.Spec{Mode: "users", Concurrency: cc, MaxDurationMS: 250, CompletionMS: 150, IgnoreDropped: false}
+	if pp["mode"] == 1 {
+		// one tick of c requests, the next one a minute later
+		spec = engine.RateSpec("constant", cc, 60000, cc)
+		spec.MaxDurationMS, spec.CompletionMS = 250, 150
+	}
+	r := engine.Execute(context.Background(), spec, l, scenario, nil, nil)
+	close(gate)
+	if r.NewErr != nil {
+		o.Inconc("harness: cannot build run: %v", r.NewErr)
+		return
+	}
+	desc := fmt.Sprintf("mode=%s c=%d: %d requests, all started, none finished before the 150 ms completion timeout expired", spec.Mode, cc, cc)
+	o.Events = started.Load() + int64(l.Len())
+	if started.Load() != int64(cc) {
+		o.Inconc("%d iterations started, %d planned (%s)", started.Load(), cc, desc)
+		return
+	}
+	_, _, dr := resultCounts(r)
+	late := uint64(0)
+	for deadline := time.Now().Add(2 * time.Second); ended.Load() < int64(cc) && time.Now().Before(deadline); {
+		time.Sleep(5 * time.Millisecond)
+	}
+	time.Sleep(50 * time.Millisecond)
+	if fams, err := engine.Gather(r.Registry); err == nil {
+		late = engine.IterationCounts(fams)["dropped"]
+	}
+	if dr != 0 || late != 0 {
+		o.Violate("timeoutdrop:"+desc, "the result reports %d dropped iterations (the iteration metric %d) although every request was started: requested %d, started %d (%s)", dr, late, cc, started.Load(), desc)
+		return
+	}
+	o.Sig("timeoutdrop:mode=%s:c=%d", spec.Mode, cc)
+	o.Sample = map[string]any{"case": desc, "dropped": dr}
+}
 
 // c02Deadline: a run that triggers every few milliseconds until its max-duration stops it. A tick that was followed by
 // another rate evaluation made while triggering was still on has been handed to the pool, and the call returned, before
